@@ -49,14 +49,18 @@ RULE = (
     'directories readable in several formats (one workflow hand-written as dosini+flowir, dsl+flowir, dosini+dsl, '
     'dosini+dsl+flowir, each representation echoing its format name; and DSL / DOSINI packages after a first load '
     'with updateInstanceFiles=True stored their FlowIR translation; with and without a user variable file; cwl is '
-    'left out). Entry points: '
+    'left out), and packages whose components name one producer twice next to other references (relative + absolute '
+    'spelling, literal repeat, with / without file path; 2-3 (thorough 4) distinct references; FlowIR, DOSINI, and DSL '
+    'by mixing an OutputReference with the legacy spelling; conf and graph entry points because validateExperiment '
+    'rejects a twice-declared reference as unused). Entry points: '
     'exp = packageFromLocation+Experiment.experimentFromPackage+validateExperiment, conf = '
     'ExperimentConfigurationFactory.configurationForExperiment(primitive=False)+WorkflowGraph, graph = '
     'packageFromLocation+WorkflowGraph.graphFromPackage (parametrize). '
     'HASH: every base task in 16 processes with PYTHONHASHSEED 0..15 (+1 process whose seed rotates with VERIF_SEED); '
     'then for every identified small set (set(variable_files) per ordered file list, set(options)&known per DOSINI '
     'component, OutputReference sets per DSL consumer, set(backends) per graph, the set of format-priority names '
-    'projected on the formats present in a multi-format directory; 2-3 elements, thorough 2-4) seeds are '
+    'projected on the formats present in a multi-format directory, the set of expanded references of a component whose '
+    'reference list contains duplicates after expansion; 2-3 elements, thorough 2-4) seeds are '
     'searched (cheap probe interpreters predict, real children confirm by reporting the order they saw) until EVERY '
     'permutation of its iteration order has been witnessed in a real child that loaded the package. '
     'VARFILES: every ordered selection of 1,2,3 of 3 files (thorough: 1..4 of 4; .yaml/.yml/.conf formats; every file '
@@ -607,7 +611,7 @@ def _run(ctx, root, slot):
     ctx.note('INFO: iteration orders witnessed/possible per identified set kind: ' + ', '.join(
         '%s %d/%d (%d sets)' % (sid, summ[sid][1], summ[sid][2], summ[sid][0]) for sid in sorted(summ)))
     for must in ('conf.variable_files', 'dosini.component_options', 'dsl.output_references', 'graph.active_backends',
-                 'conf.format_priority'):
+                 'conf.format_priority', 'flowir.expanded_references'):
         if must not in summ:
             raise HarnessError('no witness at all for identified set %s (recorder no longer reaches the product code?)' % must)
     for k in ('listdir', 'scandir', 'glob'):
